@@ -60,6 +60,10 @@ def cases(tier, seed):
     for site in SITES:
         out.append({"kind": "seam", "tree": tree, "site": site, "chunk": None})
     out.append({"kind": "cross_seam", "tree": tree})
+    # the --transform pipeline has its own, single grouping stage
+    for site in ("scan", "rehash#0"):
+        out.append({"kind": "seam", "tree": "seam5", "site": site, "chunk": None, "args": ["--transform", "cat"],
+                    "sites": ["scan", "rehash#0"]})
     for extra in ((["--rf-under", "3"],) if quick else (["--rf-under", "3"], ["--rf-over", "2"], ["--rf-under", "2"])):
         for site in (("scan", "rehash#2") if quick else SITES):
             out.append({"kind": "seam", "tree": "seamlinks", "site": site, "chunk": None, "args": extra})
@@ -159,7 +163,7 @@ def evaluate(case):
                 for line in f:
                     s, n = line.split()
                     counts[s] = int(n)
-            if sorted(counts) != sorted(SITES):
+            if sorted(counts) != sorted(case.get("sites", SITES)):
                 raise C.MachineryError("unexpected seam sites %s" % counts)
             # the permutation seam itself must not change the result: the run without any seam request is the baseline
             if case["kind"] == "seam":
